@@ -301,7 +301,7 @@ void world_build(void)
         I.S = (struct wstate *)w_alloc(sizeof(struct wstate), "wstate");
         I.line = w_alloc((size_t)W.line_max, "line");
         I.cmds = (struct cat_command *)w_alloc(sizeof(struct cat_command) * (size_t)(W.ncmd ? W.ncmd : 1), "cmds");
-        I.groups = (struct cat_command_group *)w_alloc(sizeof(struct cat_command_group) * (size_t)W.ngrp, "groups");
+        I.groups = (struct cat_command_group *)w_alloc(sizeof(struct cat_command_group) * (size_t)(W.ngrp + 1), "groups");
         I.desc = (struct cat_descriptor *)w_alloc(sizeof(struct cat_descriptor), "desc");
         I.buf = w_alloc((size_t)W.buf_size, "buf");
         I.ubuf = W.shared ? NULL : w_alloc((size_t)W.ubuf_size, "ubuf");
@@ -325,7 +325,7 @@ void world_build(void)
                 }
         }
         I.varoff[W.ncmd] = k;
-        I.grp_ptrs = calloc((size_t)W.ngrp, sizeof *I.grp_ptrs);
+        I.grp_ptrs = calloc((size_t)W.ngrp + 1, sizeof *I.grp_ptrs);
         world_init();
 }
 
@@ -399,6 +399,8 @@ void world_init(void)
                         init_var_value(i, v);
                 }
         }
+        I.n_ro = 0;
+        for (int c = 0; c < W.ncmd; c++) for (int v = 0; v < W.cmd[c].nvar; v++) if (W.cmd[c].var[v].access == CAT_VAR_ACCESS_READ_ONLY) I.n_ro++;
         int first = 0;
         I.nreg = 0;
         for (int g = 0; g < W.ngrp; g++) {
@@ -413,13 +415,22 @@ void world_init(void)
                 first += n;
                 I.nreg += n;
         }
+        int nlib = I.nreg;
         I.desc->cmd_group = I.grp_ptrs;
         I.desc->cmd_group_num = (size_t)W.ngrp;
+        if (W.alias_group) {
+                /* the same command array registered twice: its second registration belongs to a disabled group, so those slots are
+                 * invisible and the reference (which knows each command once) is unaffected */
+                I.groups[W.ngrp] = (struct cat_command_group){.name = NULL, .cmd = I.groups[0].cmd, .cmd_num = I.groups[0].cmd_num, .disable = true};
+                I.grp_ptrs[W.ngrp] = &I.groups[W.ngrp];
+                I.desc->cmd_group_num = (size_t)W.ngrp + 1;
+                nlib += (int)I.groups[0].cmd_num;
+        }
         I.desc->buf = I.buf;
         I.desc->buf_size = (size_t)W.buf_size;
         I.desc->unsolicited_buf = I.ubuf;
-        I.desc->unsolicited_buf_size = W.shared ? 0 : (size_t)W.ubuf_size;
-        if (I.nreg > W.buf_size * 4) mcx_fatal("config: too many commands for buffer (outside supported domain)");
+        I.desc->unsolicited_buf_size = W.shared ? (size_t)W.stale_usize : (size_t)W.ubuf_size;
+        if (nlib > (W.shared ? W.buf_size / 2 : W.buf_size) * 4) mcx_fatal("config: too many commands for buffer (outside supported domain)");
         if (W.cap < 6) mcx_fatal("config: capacity %d below supported minimum 6", W.cap);
         /* the second parser object is initialised before the one under test in mode 1 and after it in mode 2 */
         if (W.interfere == 1) interfere_init();
@@ -1269,7 +1280,7 @@ int world_run_bytes(const uint8_t *bytes, int n)
 {
         w_feed = bytes; w_feed_n = n; w_feed_pos = 0;
         int calls = 0;
-        int limit = 200 + 16 * n + 8 * (I.nreg + 2) * (n + 2) + 2000;
+        long limit = 200 + 16L * n + 8L * (I.nreg + 2) * (n + 2) + 2000 + 64L * W.max_inv * 4;
         for (;;) {
                 do_service();
                 calls++;
